@@ -1321,6 +1321,9 @@ class File(Value):
 
     def copy_to(self, dest_file: "File", skip_if_exists: bool = False) -> "File":
         if skip_if_exists and dest_file.exists():
+            # No copy is performed, but `dest_file` may carry a hash cached before
+            # the existing file was last modified. Return a hash of what is there.
+            dest_file.update_hash()
             return dest_file
 
         if self.filesystem.name == "local" and dest_file.filesystem.name != "local":
